@@ -20,7 +20,8 @@ Streams
   random      larger random pairs: overlapping / disjoint coordinates, differing field sets,
               scalar and array values, three cell classes, random `on`, class mismatch, unknown
               join type, empty operands, duplicate coordinates and prev-only variants
-              (hypothesis false: compared with the model only)
+              (distinct-keys hypothesis false: join / merge judged by the hypothesis-free joinSpecLast /
+              mergeSpecLast, coalesce by coalesceSpec; add_statics / period_merge compared with the model only)
   lessons     a fixed quota in every run (after the streams above; `lesson/<stream>/<tag>` in the histogram;
               VERIF_SKIP_LESSONS=1 drops them), through the same item builders / model comparison / Spec
               predicates / sequence checks as the other cases:
@@ -1342,7 +1343,17 @@ def correspondence(ctx):
     all_items = [it for _, items in b.batches for it in items]
     for meta, item, out in zip(b.metas, all_items, res):
         op = item["op"]
-        ctx.count(f"hyp/{op}/{'holds' if out['hyp'] else 'dup-keys(model only)'}")
+        ctx.count(f"hyp/{op}/{'holds' if out['hyp'] else 'dup-keys'}")
+        # through which Spec predicate(s) the case got its verdict (Drv/C10.lean): join / merge always through the
+        # hypothesis-free joinSpecLast / mergeSpecLast (plus joinSpec / mergeSpec when keys are distinct), coalesce
+        # always through coalesceSpec; add_statics / period_merge only under their hypothesis
+        via = out.get("via")
+        if via is None:
+            why = "implementation-raised" if "err" in item["impl"] else \
+                ("unknown-join-type" if op in ("join", "merge") else "dup-keys(model only)")
+            ctx.count(f"spec-via/{op}/none:{why}")
+        else:
+            ctx.count(f"spec-via/{op}/{via}")
         if out.get("direct") is False:
             # literal regrouping loop vs direct form (proved equal for distinct coordinates)
             if out["hyp"]:
@@ -1350,8 +1361,8 @@ def correspondence(ctx):
             else:
                 ctx.count(f"{op}/direct-form-differs-on-duplicates")
         if out["spec"] is False:
-            ctx.fail(f"{op}: result violates the relational definition (Spec.{op}Spec false on the implementation's output)",
-                     b.expand(meta, item), {"stream": meta["tag"]})
+            ctx.fail(f"{op}: result violates the relational definition (Spec predicate {out.get('via') or op + 'Spec'} false on the implementation's output)",
+                     b.expand(meta, item), {"stream": meta["tag"], "via": out.get("via"), "hyp": out["hyp"]})
             continue
         if not out["same"]:
             case = b.expand(meta, item)
@@ -1381,7 +1392,8 @@ if __name__ == "__main__":
              "derived-with-warm-caches / falsy-everywhere operands (see the module docstring), same checks. distinct = "
              "distinct (universe, masks, parameters) / input dump; non-trivial = both operands non-empty",
         assumptions=["operands are Triangles (sorted cell lists of one class) with NaN-free values",
-                     "keys are distinct inside each operand after the `on` reduction (otherwise: compared with the model only)",
+                     "add_statics / period_merge: keys are distinct inside each operand (otherwise: compared with the model only); "
+                     "join / merge / coalesce: no such assumption (joinSpecLast / mergeSpecLast / coalesceSpec are evaluated on every case)",
                      "Python set iteration order is unspecified: join results are compared as multisets of pairs",
                      "cell.replace re-validation cannot fail on cells of an existing Triangle (dates unchanged)"],
         trusted=["CPython dict / set semantics as modelled (last assignment wins, `{**a, **b}`)",
